@@ -53,9 +53,18 @@ fn read_known(property: &str) -> (Vec<(String, String, String)>, Vec<String>) {
     (open, fixed)
 }
 
-fn start_watchdog(property: String, secs: u64) {
+fn start_watchdog(property: String, secs: u64, seed: u64) {
     std::thread::spawn(move || {
         std::thread::sleep(std::time::Duration::from_secs(secs));
+        // a violating case that was found before the time ran out (its shrinking did not finish, e.g. because the
+        // crate under test hangs on some of the shrunk candidates) is reported as what it is
+        if let Some(f) = engine::pending_failure() {
+            let path = write_replay(&property, &f, seed);
+            println!("{}: {}", f.sub, f.message);
+            println!("(reported by the watchdog after {} s: the violating case had been found, its minimisation did not finish; the replay file holds the unshrunk case)", secs);
+            println!("VIOLATION property={} replay={}", property, path.display());
+            std::process::exit(1);
+        }
         println!("INCONCLUSIVE property={} watchdog after {} s (hang or overload; not a violation)", property, secs);
         std::process::exit(2);
     });
@@ -108,7 +117,7 @@ fn run(property: &str, tier: Tier) -> i32 {
         }
     };
     let wd = env_u64("VERIF_WATCHDOG_S", if tier == Tier::Quick { 1800 } else { 6 * 3600 });
-    start_watchdog(property.to_string(), wd);
+    start_watchdog(property.to_string(), wd, seed);
     let (open, _fixed) = read_known(property);
     for (p, _sig, text) in &open {
         println!("KNOWN-FINDING: property={} {}", p, text);
